@@ -1,8 +1,7 @@
 (* Corr/C12.v — correspondence glue: evaluates the Relay model on a case observed on the real iocopy code. *)
-From TX Require Import Base.Val Model.Relay Gen.C12.
+From TX Require Import Base.Val Model.Relay Proofs.SideC12 Gen.C12.
 Open Scope N_scope.
 
-Definition deframe_cur := deframe true UdpDeframeBuf UdpRefillBelow UdpMaxRecord UdpWriteBatch.
 Definition dec_optn (v : tval) : option N := match vopt v with Some x => Some (vn x) | None => None end.
 Definition dgrams_eqb (a b : list (list N)) : bool := all2 list_eqb a b.
 
@@ -25,11 +24,12 @@ Definition check_encode (v : tval) : bool :=
   && ((if vn (vnth 5 v) =? 0 then 0 else 1) =? vn (vnth 4 v)).
 
 (* kind 2 — Bidirectional:  [2; A; B; schedule; obs]
-     A, B = [data; cuts; end; wd; wlimit?; wshort]   (an endpoint: what it sends, how it accepts writes)
-     obs  = [to_b; to_a; sent; recv; send_err; recv_err; cw_a; cw_b; closes_a; closes_b; io_after_close] *)
+     A, B = [data; cuts; end; wd; wlimit?; wshort; wrap]   (an endpoint: what it sends, how it accepts writes,
+                                                           how it is handed to the relay: SideC12.wrap_cfg)
+     obs  = [to_b; to_a; sent; recv; send_err; recv_err; cw_a; cw_b; closes_a; closes_b; io_after_close; cwf_a; cwf_b] *)
 Definition dec_dir (src dst : tval) : dirst :=
-  dir0 (vb (vnth 0 src)) (map vnat (vl (vnth 1 src))) (vn (vnth 2 src)) (vbool (vnth 3 src))
-       (dec_optn (vnth 4 dst)) (vbool (vnth 5 dst)).
+  dirw (vb (vnth 0 src)) (map vnat (vl (vnth 1 src))) (vn (vnth 2 src)) (vbool (vnth 3 src))
+       (dec_optn (vnth 4 dst)) (vbool (vnth 5 dst)) (wrap_cfg (vn (vnth 6 dst))).
 Definition run_tcp (v : tval) : st tsh (nat * tpc) :=
   run tsh (nat * tpc) (tstep CopyBufferSize)
       (tcp_init (dec_dir (vnth 1 v) (vnth 2 v)) (dec_dir (vnth 2 v) (vnth 1 v)))
@@ -43,7 +43,8 @@ Definition check_tcp (v : tval) : bool :=
   && (d_err (sh_d0 sh) =? vn (vnth 4 o)) && (d_err (sh_d1 sh) =? vn (vnth 5 o))
   && (d_cw (sh_d1 sh) =? vn (vnth 6 o)) && (d_cw (sh_d0 sh) =? vn (vnth 7 o))
   && (sh_ncl_a sh =? vn (vnth 8 o)) && (sh_ncl_b sh =? vn (vnth 9 o))
-  && (sh_io_after_close sh =? vn (vnth 10 o)).
+  && (sh_io_after_close sh =? vn (vnth 10 o))
+  && (d_cwf (sh_d1 sh) =? vn (vnth 11 o)) && (d_cwf (sh_d0 sh) =? vn (vnth 12 o)).
 
 Definition check (v : tval) : bool :=
   match vn (vnth 0 v) with
@@ -63,6 +64,7 @@ Definition predict (v : tval) : tval :=
   | 2 => let sh := fst (run_tcp v) in
          VL [vN_of_bool (sh_ret sh); VB (d_out (sh_d0 sh)); VB (d_out (sh_d1 sh));
              VN (d_bytes (sh_d0 sh)); VN (d_bytes (sh_d1 sh)); VN (d_err (sh_d0 sh)); VN (d_err (sh_d1 sh));
-             VN (d_cw (sh_d1 sh)); VN (d_cw (sh_d0 sh)); VN (sh_ncl_a sh); VN (sh_ncl_b sh); VN (sh_io_after_close sh)]
+             VN (d_cw (sh_d1 sh)); VN (d_cw (sh_d0 sh)); VN (sh_ncl_a sh); VN (sh_ncl_b sh); VN (sh_io_after_close sh);
+             VN (d_cwf (sh_d1 sh)); VN (d_cwf (sh_d0 sh))]
   | _ => VL []
   end.
